@@ -610,9 +610,9 @@ def check_compiled_columns(ctx: Ctx, prep, comps, label: dict, rng, state: dict)
         fnames = [f"f{fglob[j]}" for j in fsel]
         mch = [f"m{i}" for i in pc.output_indices]
         graphs = _plug_outputs(comp.graph, mch, list(range(n + 1)))
-        for _row in range(3):
-            fb = rng.integers(0, 2, size=len(fsel)).astype(bool)
-            mb = rng.integers(0, 2, size=n).astype(bool)
+        rows = [(rng.integers(0, 2, size=len(fsel)).astype(bool), mb_) for mb_ in all_bits(n)] if n <= 5 else \
+               [(rng.integers(0, 2, size=len(fsel)).astype(bool), rng.integers(0, 2, size=n).astype(bool)) for _row in range(6)]
+        for fb, mb in rows:
             base = {nm: Fraction(int(b)) for nm, b in zip(fnames, fb)}
             got0 = abs(complex(np.asarray(evaluate(pc.compiled_scalar_graphs[0], jnp.asarray(fb[None, :], dtype=jnp.bool_)))[0]))
             want0 = abs(value(graphs[0], dict(base)))
@@ -697,7 +697,8 @@ def run_circuit(ctx: Ctx, text: str, detectors: bool, rng, state: dict, *, deep:
 
 FIXED = [
     # twelve outputs; one Clifford+T component owns outputs 2, 9, 10, 11 (indices whose decimal strings sort differently from the numbers)
-    ("H 2\nT 2\nCX 2 9\nCX 9 10\nH 10\nT 10\nCX 10 11\nH 11\nX_ERROR(0.25) 9\nM 0 1 2 3 4 5 6 7 8 9 10 11", False),
+    ("H 2\nT 2\nH 2\nCX 2 9\nH 9\nT 9\nH 9\nCX 9 10\nT 10\nH 10\nT 10\nH 10\nCX 10 11\nCX 2 11\nH 11\nT 11\nH 11\nM 0 1 2 3 4 5 6 7 8 9 10 11", False),
+    ("H 10\nT 10\nH 10\nCX 10 2\nH 2\nT 2\nH 2\nX_ERROR(0.25) 2\nCX 2 11\nT 11\nH 11\nM 0 1 2 3 4 5 6 7 8 9 10 11", False),
     ("RX 0\nT 0\nH 0\nCX 0 1\nX_ERROR(0.25) 1\nM 0 1\nH 0\nM 0", False),
     ("H 0\nT 0\nH 0\nT 0\nH 0\nT 0\nH 0\nM 0", False),
     ("H 0 1\nT 0 1\nCX 0 1\nH 0\nT 0\nH 1\nT_DAG 1\nH 0 1\nT 0\nM 0 1", False),
